@@ -2,6 +2,8 @@
 # Build the Coq development from the files on disk (offline, full .vo build).
 set -e
 cd "$(dirname "$0")/coq"
+mkdir -p Gen
+for t in ../tools/gen_*.py; do /venv/bin/python "$t" "$(pwd)/Gen" > /dev/null; done
 rm -f Makefile Makefile.conf .Makefile.d
 coq_makefile -f _CoqProject -o Makefile
 timeout 3000 make -j"$(nproc)"
